@@ -23,7 +23,14 @@ def main():
 
 
 if __name__ == '__main__':
+    import shutil
+    import tempfile
     t0 = time.time()
-    rc = main()
+    root = tempfile.mkdtemp(prefix='verif-run-')
+    os.environ['VERIF_TMP_ROOT'] = root
+    try:
+        rc = main()
+    finally:
+        shutil.rmtree(root, ignore_errors=True)
     sys.stdout.flush()
     sys.exit(rc)
